@@ -1,6 +1,7 @@
 package props
 
 import (
+	"errors"
 	"bytes"
 	"context"
 	"fmt"
@@ -10,6 +11,7 @@ import (
 
 	"nhooyr.io/websocket"
 
+	"verifsim/simrt"
 	"verifsim/wsref"
 )
 
@@ -85,9 +87,11 @@ func runC05(r *Run) {
 	var rc *rawConn
 	var libIsClient bool
 	var neg Negotiated
+	var pce, pse *simrt.End
 	if pair {
 		o := PairOpts{CMode: modes[t.Draw(3)], SMode: modes[t.Draw(3)], CThresh: threshChoices[t.Draw(len(threshChoices))], SThresh: threshChoices[t.Draw(len(threshChoices))]}
 		cli, srv, ce, se, err := r.LibPair("p0", o)
+		pce, pse = ce, se
 		if err != nil {
 			r.Violate("handshake-failed", "pair", "%v", err)
 			return
@@ -136,7 +140,46 @@ func runC05(r *Run) {
 		rc.Lib.Out().WChunk = t.Weighted(4, 1, 2, 2, 2)
 		rc.Lib.Out().OpBudget = 2500
 	}
+	// A stall: the receiving side stops draining for a while, so that frame
+	// writers block in the transport, callers queue on the locks behind them and
+	// short contexts (pingers) end while they wait.
+	stall := t.Pct(25)
+	stallDur := []time.Duration{2500 * time.Millisecond, 8 * time.Second}[t.Draw(2)]
+	stallAfter := 1 + t.Draw(30)
+	pingCtx := make([]time.Duration, nP)
+	for i := range pingCtx {
+		pingCtx[i] = 20 * time.Second
+		if stall {
+			pingCtx[i] = []time.Duration{time.Second, 2 * time.Second, 20 * time.Second}[t.Draw(3)]
+		}
+	}
+	peerPings := 0
+	if stall && !pair {
+		peerPings = t.Draw(4)
+	}
+	holding := false
+	if stall {
+		var libOut *simrt.Dir
+		var peerEnd *simrt.End
+		if pair {
+			libOut, peerEnd = pse.Out(), pce
+			if libIsClient {
+				libOut, peerEnd = pce.Out(), pse
+			}
+		} else {
+			libOut, peerEnd = rc.Lib.Out(), rc.Raw
+		}
+		if libOut.Cap > 4096 {
+			libOut.Cap = 4096
+		}
+		libOut.HardCap = true
+		peerEnd.RGate = func() bool { return !holding }
+		r.S.Count("fault.receiver-stall")
+	}
 	sig := fmt.Sprintf("pair=%v,closer=%s", pair, c05Closers[closer])
+	if stall {
+		sig += ",stall"
+	}
 	r.Class = fmt.Sprintf("%s/w%d/p%d/cli%v/d%v", sig, nW, nP, libIsClient, neg.Deflate)
 	r.D("pair", pair)
 	r.D("role_lib_client", libIsClient)
@@ -146,7 +189,8 @@ func runC05(r *Run) {
 	r.D("fire_after", fireAfter)
 	r.Nontrivial = true
 
-	var live atomic.Int32
+	var live, failed atomic.Int32
+	var readerDone atomic.Bool // a's reader returned: the application's cue to close
 	var closing atomic.Bool
 	for _, wp := range writers {
 		wp := wp
@@ -175,6 +219,7 @@ func runC05(r *Run) {
 					}
 				}
 				if err != nil {
+					failed.Add(1)
 					if !closing.Load() {
 						r.Violate("write-error", sig, "writer %d message %d failed before any close: %v", wp.id, j, err)
 					}
@@ -184,16 +229,17 @@ func runC05(r *Run) {
 		})
 	}
 	for i := 0; i < nP; i++ {
+		i := i
 		name := fmt.Sprintf("p%d", i)
 		live.Add(1)
 		r.S.Go(name, func() {
 			defer live.Add(-1)
 			for j := 0; j < 4; j++ {
 				r.S.Park("a." + name)
-				ctx, cancel := context.WithTimeout(bg, 20*time.Second)
+				ctx, cancel := context.WithTimeout(bg, pingCtx[i])
 				err := a.Ping(ctx)
 				cancel()
-				if err != nil {
+				if err != nil && !(stall && errors.Is(err, context.DeadlineExceeded)) {
 					return
 				}
 			}
@@ -203,12 +249,33 @@ func runC05(r *Run) {
 	live.Add(1)
 	r.S.Go("a.reader", func() {
 		defer live.Add(-1)
+		defer readerDone.Store(true)
 		for {
 			if _, _, err := a.Read(bg); err != nil {
 				return
 			}
 		}
 	})
+	if stall {
+		r.S.Go("staller", func() {
+			for n := 0; n < stallAfter; n++ {
+				r.S.Park("a.staller")
+			}
+			if closing.Load() {
+				return
+			}
+			// from here on a frame writer may hold the frame lock for longer than a
+			// control frame's 5 s bound or a pinger's context, which closes the connection
+			closing.Store(true)
+			for k := 0; k < peerPings; k++ {
+				rc.Peer.Inject(rc.Peer.Encode(wsref.Frame{Fin: true, Opcode: wsref.OpPing, Payload: []byte{byte('a' + k)}}))
+			}
+			holding = true
+			r.S.Sleep(stallDur)
+			holding = false
+			r.S.Kick()
+		})
+	}
 	lastSeq := map[int]int{}
 	if pair {
 		// b reads what a's writers send; its context may expire mid-message
@@ -253,7 +320,7 @@ func runC05(r *Run) {
 		r.S.Go("closer", func() {
 			switch closer {
 			case 0:
-				r.S.ParkE("a.closer", func() bool { return live.Load() <= 1 }, nil)
+				r.S.ParkE("a.closer", func() bool { return live.Load() <= 1 || readerDone.Load() }, nil)
 				closing.Store(true)
 				a.Close(websocket.StatusNormalClosure, "done")
 			case 1, 2, 3, 4:
@@ -299,7 +366,7 @@ func runC05(r *Run) {
 		r.S.Go("closer", func() {
 			switch closer {
 			case 0, 3:
-				r.S.ParkE("a.closer", func() bool { return live.Load() <= 1 }, nil)
+				r.S.ParkE("a.closer", func() bool { return live.Load() <= 1 || readerDone.Load() }, nil)
 				closing.Store(true)
 				a.Close(websocket.StatusNormalClosure, "done")
 			default:
@@ -324,7 +391,7 @@ func runC05(r *Run) {
 	r.S.Loop()
 	if r.S.Aborted != "" {
 		if r.S.Aborted == "sim-time" {
-			r.Violate("stuck", sig, "concurrent program did not finish: parked=%v", r.S.ParkedIDs())
+			r.Violate("stuck", sig, "concurrent program did not finish: parked=%v; inside the library: %q", r.S.ParkedIDs(), blockedInLibrary())
 		}
 		return
 	}
@@ -341,7 +408,9 @@ func runC05(r *Run) {
 			}
 		}
 	}
-	if closer == 0 && len(r.Viol) == 0 {
+	// (with a stall the peer endpoint of a pair may give up by itself: a control
+	// frame that takes more than 5 s to arrive closes it)
+	if closer == 0 && len(r.Viol) == 0 && failed.Load() == 0 && !(stall && pair) {
 		// nothing interrupted the writers: everything must have arrived
 		for _, wp := range writers {
 			if last, ok := lastSeq[wp.id]; !ok || last != wp.n-1 {
